@@ -271,7 +271,8 @@ impl TspP {
         assert_eq!(dist.len(), n * n);
         Self { n, dist, name: format!("tsp-{n}"), instr: Instr::new() }
     }
-    /// Deterministic matrix from a seed. kind 0: uniform 1..10, 1: clustered, 2: ratio 1e-3..1e6
+    /// Deterministic matrix from a seed. kind 0: uniform 1..10, 1: clustered, 2: ratio 1e-3..1e6,
+    /// 3: one city astronomically far away (1e150) from a uniform cluster - (1/d)^beta underflows to 0
     pub fn generated(n: usize, kind: u8, seed: u64) -> Self {
         let mut dist = vec![0.0; n * n];
         let mut s = seed.wrapping_mul(0x9E3779B97F4A7C15).wrapping_add(kind as u64 + 1);
@@ -293,7 +294,14 @@ impl TspP {
                             50.0 + 10.0 * u
                         }
                     }
-                    _ => 10f64.powf(-3.0 + 9.0 * u),
+                    2 => 10f64.powf(-3.0 + 9.0 * u),
+                    _ => {
+                        if j == n - 1 {
+                            1e150 * (1.0 + u)
+                        } else {
+                            1.0 + 9.0 * u
+                        }
+                    }
                 };
                 dist[i * n + j] = d;
                 dist[j * n + i] = d;
